@@ -348,6 +348,32 @@ func compareLists(c *vk.Ctx, api string, pA, pB *sem.Prepared, rcX *ref.Case, C 
 			}
 		}
 	}
+	if api == "ListUsers" {
+		// ListUsers' exclusion bookkeeping (listed under C06) makes answers depend on message order: two runs
+		// of the same question can differ. Attributed when every side is either the reference answer or
+		// exactly what the executable model of that bookkeeping predicts (or the model is order-dependent).
+		i := strings.Index(subj, "#")
+		ft, fr := subj[:i], subj[i+1:]
+		exp := sem.RefListUsers(rcX, obj, rel, ft, fr)
+		wantLU := append([]string{}, exp.Concrete...)
+		if exp.Wildcard {
+			wantLU = append(wantLU, ft+":*")
+		}
+		sort.Strings(wantLU)
+		all := true
+		for _, side := range [][]string{a, b} {
+			if strings.Join(side, ",") == strings.Join(wantLU, ",") {
+				continue
+			}
+			if ff, _ := sem.ClassifyListUsersByModel("C04", pB, rcX, obj, rel, ft, fr, side, false); ff == "" {
+				all = false
+			}
+		}
+		if all {
+			f = "C04-" + sem.FindingListUsersExclusion
+		}
+		want = wantLU
+	}
 	if f == "" && strings.HasPrefix(api, "ListObjects/optimized") && want != nil {
 		// the weighted reverse expansion omits permitted objects nondeterministically (listed under C05):
 		// two answers that are both sound subsets of the reference set differ by such omissions only
